@@ -59,6 +59,17 @@ func runC09(t *testing.T, c *choice.Stream, r *Result, opt RunOpt) {
 	Bubble(t, c, r, opt, func(e *Env) func() {
 		cf := DrawConf(c)
 		cols := DrawCols(c, "in", 4, 2)
+		// now and then one block of more than a megabyte of incompressible data:
+		// whatever is buffered, chained or framed by size gets past its limits
+		huge := c.Bool("huge", 1, 100)
+		if huge {
+			t := []string{"FixedString(16)", "UUID", "Int256"}[c.Draw("huge.type", 3)]
+			rt, err := refproto.ParseType(t)
+			if err != nil {
+				panic(err)
+			}
+			cols = []ColSpec{{Name: "c0", Type: t, RT: rt}}
+		}
 		var lib []proto.Column
 		var input proto.Input
 		for _, cs := range cols {
@@ -75,6 +86,9 @@ func runC09(t *testing.T, c *choice.Stream, r *Result, opt RunOpt) {
 			if c.Bool("rows0.big", 1, 10) {
 				rows0 = c.Pick("rows0.bigrows", 600, 3000, 9000)
 			}
+		}
+		if huge {
+			rows0 = c.Pick("rows0.huge", 40000, 70000, 140000)
 		}
 		initial := drawRoundVals(c, cols, rows0)
 		// ---- the callback history ----
